@@ -752,7 +752,7 @@ def r7_timestamp_roundtrip(ctx):
             if outcome != 'return':
                 continue
             r = path_ret(ff, path)
-            lossy = [x for x in walk(r) if x[0] == 'cast'] if r else ['?']
+            lossy = [x for x in walk(r) if x[0] == 'cast' and str(x[1]) in ('IntToInt', 'FloatToInt', 'IntToFloat', 'FloatToFloat')] if r else ['?']   # (numeric conversions; pointer/unsizing casts of the container do not touch the time)
             ctx.check(not lossy, 'fetch-returns-stored-time', 'fetch_next returns the stored (event, time) pair without converting the time', ff.where_path(path))
 
 
